@@ -530,8 +530,9 @@ def main():
     if (diffs or bad or missing or obligations_broken) and not fails:
         # proof obligation or correspondence broke: search for a concrete failing input
         log(f"correspondence/obligation break ({len(diffs)} diffs, {len(bad)} bad, {len(obligations_broken)} obligations); widening search")
-        wn = max(n * 4, cfg["cases"].get("thorough", n))
-        for ws in range(3):
+        # progressively larger searches (fresh seeds); stop at the first concrete failing input
+        th = cfg["cases"].get("thorough", n)
+        for ws, wn in enumerate([n * 2, max(n * 4, th // 4), max(n * 4, th)]):
             res, err = one_run(seed + 7919 * (ws + 1), wn, f"widen{ws}")
             widened += 1
             if err: break
